@@ -379,6 +379,12 @@ ok('reformat-every-module-with-ast-unparse', [(f, ('unparse',), None) for f in A
 br('C16', 'seed-restart-syncs-only-after-wait', (PE, "        if not self.wait(timeout=timeout):\n            self.terminate(*args, **kwargs)\n            if self.is_alive():\n                raise RuntimeError(f'Could not stop a worker!')\n\n        self._get_result() # this is required to sync user state in some cases (fetch results, at least persistant process)\n",
                                                  "        if self.wait(timeout=timeout):\n            self._get_result()\n        else:\n            self.terminate(*args, **kwargs)\n            if self.is_alive():\n                raise RuntimeError(f'Could not stop a worker!')\n"), 'restart-order')
 br('C13', 'seed-provisional-verdict-cache', (RP, "        allow_remote = True\n        first_not_remote = None", "        cls._cls_check_cache[t] = False\n        allow_remote = True\n        first_not_remote = None"), 'rejected-class-cached')
+br('C15', 'seed2-write-back-on-truthiness', (ST, "        if patches is not None:\n            obj_name = cls.current_child_name()", "        if patches:\n            obj_name = cls.current_child_name()"), 'write-back-skipped-for-real-frame')
+br('C15', 'write-back-early-return-on-empty', (ST, "        patches = cls.current_patches()\n        if patches is not None:\n            obj_name", "        patches = cls.current_patches()\n        if not patches:\n            cls.close_current_ctx()\n            return\n        if patches is not None:\n            obj_name"), 'write-back-skipped-for-real-frame')
+br('C15', 'real-frame-only-for-non-empty-dict', (ST, "                if isinstance(sub, dict):\n                    sub_patches.append", "                if sub and isinstance(sub, dict):\n                    sub_patches.append"), 'real-frame-guard')
+ok('c15-write-back-guard-dropped', (ST, "        if patches is not None:\n            obj_name = cls.current_child_name()\n            parent_patches = cls.parent_patches()\n            assert bool(parent_patches) == bool(obj_name)\n            if parent_patches:\n                parent_patches[obj_name] = obj\n",
+                                        "        obj_name = cls.current_child_name()\n        parent_patches = cls.parent_patches()\n        assert bool(parent_patches) == bool(obj_name)\n        if parent_patches:\n            parent_patches[obj_name] = obj\n"))
+ok('c15-write-back-guard-isinstance', (ST, "        if patches is not None:\n            obj_name = cls.current_child_name()", "        if isinstance(patches, dict):\n            obj_name = cls.current_child_name()"))
 br('C14', 'seed2-falsy-state-dropped', (PK, "        state = obj.__getstate__(remote=self._remote)\n", "        state = obj.__getstate__(remote=self._remote)\n        if not state:\n            state = None\n"), 'state-replaced')
 br('C14', 'state-key-popped', (PK, "            state = OrderedDict(state)\n", "            state = OrderedDict(state)\n            state.pop('_cache', None)\n"), 'state-mutated')
 br('C14', 'state-sent-filtered', (PK, "            state = OrderedDict(state)\n", "            state = OrderedDict((k, v) for k, v in state.items() if v is not None)\n"), 'state-replaced')
